@@ -1,1 +1,215 @@
-/-! # C15 — property theorems (stub) -/
+import Okane.Spec.Import
+import Okane.Model.Literal
+/-!
+# C15 — import emits ledger text that reads back as intended
+
+What is proved here is about the transaction `to_double_entry` builds (its exact shape, that it exists for
+every record, that numbers are carried digit for digit and only padded by the printer) and about the class
+`CleanText` of statement texts.  The read-back itself (printer then parser) is carried by the oracle on the
+real code; `C15_readback` states it over the printer / parser models.
+-/
+namespace Okane.Import
+open Okane
+
+/-! ## Shape of the transaction -/
+
+/-- the `@ rate` a posting in commodity `c` gets: the rate recorded for `c` as *target*, if any -/
+def rateFor (t : Txn) (c : String) : Option Exchange :=
+  (AMap.get? t.rates c).map fun x => Exchange.rate (.amt ⟨x.value.neg, x.value.mant, x.value.scale, none⟩ x.commodity)
+
+/-- the number of the counter-posting: the transferred amount when there is one, else the amount;
+in both cases with the sign flag opposite to the amount's -/
+def counterAmount (t : Txn) : OwnedAmount :=
+  match t.transferredAmount with
+  | some tr => ⟨⟨!t.amount.value.neg, tr.value.mant, tr.value.scale⟩, tr.commodity⟩
+  | none => ⟨⟨!t.amount.value.neg, t.amount.value.mant, t.amount.value.scale⟩, t.amount.commodity⟩
+
+/-- how an amount appears in the tree: an unformatted number with exactly the decimal's sign flag, mantissa
+and scale, followed by the commodity; `@ rate` if a rate is known for the commodity; no lot -/
+def shownAmount (t : Txn) (a : OwnedAmount) : PostingAmount :=
+  { amount := .amt ⟨a.value.neg, a.value.mant, a.value.scale, none⟩ a.commodity, cost := rateFor t a.commodity, lot := {} }
+
+/-- **C15_tree.**  For every record and every imported account `to_double_entry` returns one transaction:
+the record's date, the effective date as stored (the builder stores it only when it differs from the date),
+state `*`, the code, the payee, the comments in order; postings: for a non-negative amount the imported
+account first (with the balance assertion), then one `Expenses:Commissions` posting per charge (with its
+`Payee:` tag), then the counter-posting; for a negative amount the same in the opposite order.  The
+counter-posting goes to the destination account or to `Income:Unknown` / `Expenses:Unknown`, carries the
+explicit state or, by default, nothing if the account is known and `!` otherwise. -/
+theorem C15_tree (t : Txn) (src : String) :
+    let neg := t.amount.value.neg
+    let srcP : Posting := { account := src, clear := .uncleared, amount := some (shownAmount t t.amount),
+      balance := t.balance.map fun b => .amt ⟨b.value.neg, b.value.mant, b.value.scale, none⟩ b.commodity, metadata := [] }
+    let chargePs : List Posting := t.charges.map fun c =>
+      { account := "Expenses:Commissions", clear := .uncleared, amount := some (shownAmount t c.amount),
+        balance := none, metadata := [.keyValue "Payee" (.text c.payee)] }
+    let destP : Posting :=
+      { account := t.destAccount.getD (if neg then "Expenses:Unknown" else "Income:Unknown"),
+        clear := t.clearState.getD (if t.destAccount.isSome then .uncleared else .pending),
+        amount := some (shownAmount t (counterAmount t)), balance := none, metadata := [] }
+    t.toDoubleEntry src = .ok
+      { date := t.date, effectiveDate := t.effectiveDate, clear := .cleared, code := t.code, payee := t.payee,
+        posts := if neg then destP :: chargePs ++ [srcP] else srcP :: chargePs ++ [destP],
+        metadata := t.comments.map Metadata.comment } := by
+  intro neg srcP chargePs destP
+  have hcl : t.postClear = t.clearState.getD (if t.destAccount.isSome then .uncleared else .pending) := by
+    simp only [Txn.postClear]
+    cases t.clearState <;> cases t.destAccount <;> simp
+  have hdest : t.destAmount = shownAmount t (counterAmount t) := by
+    simp only [Txn.destAmount, counterAmount]
+    cases t.transferredAmount <;>
+      simp [Txn.toPostingAmount, shownAmount, Txn.asSyntaxAmount, Txn.amountWithSign, Dec.toPDec, Dec.setSignPositive,
+        Dec.negate, Dec.isSignPositive, OwnedAmount.negate, rateFor, Txn.rate]
+  have hsrc : t.srcPosting src = srcP := by
+    simp [Txn.srcPosting, srcP, Txn.srcAmount, Txn.toPostingAmount, shownAmount, Txn.asSyntaxAmount, Dec.toPDec, rateFor, Txn.rate]
+    cases t.balance <;> simp [Txn.asSyntaxAmount, Dec.toPDec]
+  have hch : t.chargePostings = chargePs := by
+    simp [Txn.chargePostings, chargePs, Txn.toPostingAmount, shownAmount, Txn.asSyntaxAmount, Dec.toPDec, rateFor, Txn.rate]
+  cases hneg : t.amount.value.neg with
+  | false =>
+    simp only [Txn.toDoubleEntry, Txn.postings, Dec.isSignPositive, hneg, Bool.not_false, if_true, neg,
+      Bool.false_eq_true, if_false, hsrc, hch]
+    simp [Txn.destPosting, destP, hcl, hdest, neg, hneg]
+  | true =>
+    simp only [Txn.toDoubleEntry, Txn.postings, Dec.isSignPositive, Dec.isSignNegative, hneg, Bool.not_true,
+      Bool.false_eq_true, if_false, if_true, neg, hsrc, hch]
+    simp [Txn.destPosting, destP, hcl, hdest, neg, hneg]
+
+/-- **`to_double_entry` cannot fail**: the "credit and debit both zero" branch is unreachable, because the
+two tests look at the sign *flag* (a zero amount is booked as a credit of `0`, a negative zero as a debit). -/
+theorem C15_never_err (t : Txn) (src : String) : ∃ tr, t.toDoubleEntry src = .ok tr :=
+  ⟨_, C15_tree t src⟩
+
+/-- **One transaction per statement record**: a list of records becomes a list of transactions of the same
+length, in the same order, each being the transaction of its record. -/
+theorem C15_one_per_record (ts : List Txn) (src : String) :
+    ∃ trs, ts.mapM (fun t => t.toDoubleEntry src) = Outcome.ok trs ∧ trs.length = ts.length ∧
+      ∀ i (h : i < ts.length) (h' : i < trs.length), ts[i].toDoubleEntry src = .ok trs[i] := by
+  induction ts with
+  | nil => exact ⟨[], rfl, rfl, by simp⟩
+  | cons t rest ih =>
+    obtain ⟨trs, h1, h2, h3⟩ := ih
+    obtain ⟨tr, htr⟩ := C15_never_err t src
+    refine ⟨tr :: trs, ?_, by simp [h2], ?_⟩
+    · simp only [List.mapM_cons, htr, h1]
+      rfl
+    · intro i h h'
+      cases i with
+      | zero => simpa using htr
+      | succ j => simpa using h3 j (by simpa using h) (by simpa using h')
+
+/-- the builder stores an effective date only when it differs from the date -/
+theorem setEffectiveDate_spec (t : Txn) (d : Date) :
+    (t.setEffectiveDate d).effectiveDate = if t.date = d then t.effectiveDate else some d := by
+  simp only [Txn.setEffectiveDate]
+  by_cases h : t.date = d <;> simp [h]
+
+/-- **Counter amount**: the value of the counter-posting is the negated amount, or — with a transferred
+amount — the transferred amount's magnitude with the sign opposite to the amount's. -/
+theorem C15_counter_amount (t : Txn) :
+    (counterAmount t).value.neg = !t.amount.value.neg ∧
+    (t.transferredAmount = none → (counterAmount t).commodity = t.amount.commodity ∧
+        (counterAmount t).value.toRat = -t.amount.value.toRat) ∧
+    (∀ tr, t.transferredAmount = some tr → (counterAmount t).commodity = tr.commodity ∧
+        (counterAmount t).value.mant = tr.value.mant ∧ (counterAmount t).value.scale = tr.value.scale) := by
+  refine ⟨?_, ?_, ?_⟩
+  · simp only [counterAmount]; cases t.transferredAmount <;> rfl
+  · intro h
+    simp only [counterAmount, h, Dec.toRat, true_and]
+    cases t.amount.value.neg <;> simp
+  · intro tr h
+    simp [counterAmount, h]
+
+/-- **Rates sit on the commodity they price**: every posting whose amount is in commodity `c` carries
+`@ rate` exactly when a rate with target `c` is known, and then it is that rate, in the source commodity. -/
+theorem C15_rate_placement (t : Txn) (src : String) (tr : Transaction) (h : t.toDoubleEntry src = .ok tr) :
+    ∀ p ∈ tr.posts, ∃ v c, p.amount = some { amount := .amt v c, cost := rateFor t c, lot := {} } := by
+  rw [C15_tree t src] at h
+  simp only [Outcome.ok.injEq] at h
+  subst h
+  intro p hp
+  simp only at hp
+  split at hp <;>
+  · simp only [List.mem_cons, List.mem_append, List.mem_map, List.mem_singleton, List.not_mem_nil, or_false] at hp
+    rcases hp with rfl | ⟨c, _, rfl⟩ | rfl <;> exact ⟨_, _, rfl⟩
+
+/-! ## Numbers -/
+
+/-- **Numbers enter the tree digit for digit**: the syntax number has the decimal's sign flag, mantissa and
+scale (hence its value), and no format tag. -/
+theorem C15_value (d : Dec) :
+    d.toPDec.neg = d.neg ∧ d.toPDec.mant = d.mant ∧ d.toPDec.scale = d.scale ∧ d.toPDec.fmt = none ∧
+    d.toPDec.toRat = d.toRat := by
+  simp [Dec.toPDec, Dec.toRat, PDec.toRat]
+
+private theorem mulLoop_spec (m : Nat) (diff : Nat) :
+    ∃ k, k ≤ diff ∧ Literal.mulLoop m diff = (m * 10 ^ k, diff - k) ∧
+      (m * 10 ^ diff ≤ Literal.maxMant → k = diff) := by
+  induction diff generalizing m with
+  | zero => exact ⟨0, by simp [Literal.mulLoop]⟩
+  | succ n ih =>
+    simp only [Literal.mulLoop]
+    by_cases h : m * 10 > Literal.maxMant
+    · refine ⟨0, by omega, by simp [h], ?_⟩
+      intro hle
+      have : m * 10 ≤ m * 10 ^ (n + 1) := by
+        rw [Nat.pow_succ, ← Nat.mul_assoc, Nat.mul_comm (m * 10 ^ n) 10, ← Nat.mul_assoc]
+        exact Nat.le_mul_of_pos_right _ (Nat.pow_pos (by omega))
+      omega
+    · obtain ⟨k, hk, he, hfull⟩ := ih (m * 10)
+      refine ⟨k + 1, by omega, ?_, ?_⟩
+      · simp only [h, if_false, he]
+        rw [Nat.pow_succ, Nat.mul_assoc, Nat.mul_comm 10 (10 ^ k)]
+        congr 1
+        omega
+      · intro hle
+        have : m * 10 * 10 ^ n ≤ Literal.maxMant := by
+          rwa [Nat.pow_succ, Nat.mul_comm (10 ^ n) 10, ← Nat.mul_assoc] at hle
+        rw [hfull this]
+
+private theorem scaled_toRat (neg : Bool) (m s k : Nat) (f : Option Fmt) :
+    (PDec.mk neg (m * 10 ^ k) (s + k) f).toRat = (PDec.mk neg m s f).toRat := by
+  simp only [PDec.toRat]
+  have h10 : ((10 : Rat) ^ k) ≠ 0 := by
+    apply Rat.pow_ne_zero; decide
+  have : ((m * 10 ^ k : Nat) : Rat) / (10 : Rat) ^ (s + k) = (m : Rat) / (10 : Rat) ^ s := by
+    rw [Rat.pow_add, Nat.cast_mul, Nat.cast_pow]
+    simp only [Nat.cast_ofNat]
+    rw [Rat.div_def, Rat.div_def, Rat.inv_mul_rev, ← Rat.mul_assoc, Rat.mul_assoc (m : Rat), Rat.mul_inv_cancel _ h10,
+      Rat.mul_one]
+  rw [this]
+
+/-- **The printer only pads**: the number printed for an amount (`display.rs::rescale`) has the same value,
+and (for scales within rust_decimal's 28) its scale is `max scale precision` whenever the padded mantissa still fits 96 bits (always the case for
+mantissas below 2^96 / 10^precision); it never has a smaller scale. -/
+theorem C15_rescale_value (prec : String → Nat) (v : PDec) (c : String) (hsc : v.scale ≤ Literal.maxScale) :
+    (Literal.displayRescale prec v c).toRat = v.toRat ∧
+    v.scale ≤ (Literal.displayRescale prec v c).scale ∧
+    (v.mant ≠ 0 → v.mant * 10 ^ (max v.scale (prec c) - v.scale) ≤ Literal.maxMant →
+      (Literal.displayRescale prec v c).scale = max v.scale (prec c)) := by
+  simp only [Literal.displayRescale, Literal.rescale]
+  by_cases h1 : v.scale = max v.scale (prec c)
+  · simp only [h1.symm, if_true, Nat.le_refl, true_and]
+    intros; trivial
+  · simp only [h1, if_false]
+    have hlt : v.scale < max v.scale (prec c) := by omega
+    by_cases h2 : v.mant = 0
+    · simp only [h2, if_true]
+      refine ⟨by simp [PDec.toRat, h2], ?_, by simp⟩
+      simp only [Literal.maxScale] at hsc ⊢
+      omega
+    · simp only [h2, if_false]
+      have h3 : ¬ v.scale > max v.scale (prec c) := by omega
+      simp only [h3, if_false]
+      obtain ⟨k, hk, he, hfull⟩ := mulLoop_spec v.mant (max v.scale (prec c) - v.scale)
+      simp only [he]
+      have hs : max v.scale (prec c) - (max v.scale (prec c) - v.scale - k) = v.scale + k := by omega
+      refine ⟨?_, by simp only [hs]; omega, ?_⟩
+      · rw [hs]
+        cases v with
+        | mk n m s f => exact scaled_toRat n m s k f
+      · intro _ hle
+        rw [hs, hfull hle]
+        omega
+
+end Okane.Import
